@@ -12,7 +12,7 @@ Theorem wrapped_points_at_func o gid f inj exp g :
   f_id (b_func g) = gid /\ wf_obj (b_func g).
 Proof.
   intros WF NZ E. pose proof (update_wrapper_opt_refines o gid f inj exp WF NZ) as R. rewrite E in R.
-  destruct (spec_wraps (func_sig f) inj exp); [|exfalso; exact R].
+  destruct (spec_wraps_opt (o_inject_to_varkw o) (func_sig f) inj exp); [|exfalso; exact R].
   destruct R as [_ [_ [_ [_ [_ [ID [DW [DS [_ [WO _]]]]]]]]]].
   split; [exact DW|]. split; [exact DS|]. split; [exact ID | exact WO].
 Qed.
@@ -67,7 +67,7 @@ Proof.
   assert (NZ : Forall (fun nd : name * option value => fst nd <> 0) (s_expected st)) by (rewrite EE; constructor).
   pose proof (update_wrapper_opt_refines (s_options st) (s_id st) f (s_injected st) (s_expected st) WF NZ) as R.
   set (u := update_wrapper_opt (s_options st) (s_id st) f (s_injected st) (s_expected st)) in *.
-  unfold spec_wraps in R. rewrite EI, EE in R. cbn [spec_injects spec_expects] in R.
+  unfold spec_wraps_opt in R. rewrite EI, EE in R. cbn [spec_injects_opt spec_expects] in R.
   destruct u as [g|e]; [|exfalso; exact R].
   destruct R as [_ [_ [_ [_ [_ [_ [_ [_ [_ [[WFg _] _]]]]]]]]]]. cbn [snd]. apply IH; assumption.
 Qed.
@@ -76,7 +76,7 @@ Qed.
 Definition ex_steps : list step :=
   [mkStep [2] [] default_options 101;                 (* injected=['b'] *)
    mkStep [] [] default_options 102;                  (* pass-through *)
-   mkStep [] [(14, Some 33)] (mkOpt true false) 103]. (* expected=[('z', V33)] *)
+   mkStep [] [(14, Some 33)] (mkOpt true false false) 103]. (* expected=[('z', V33)] *)
 
 Lemma ex_stack :
   snd (run_steps ex_f ex_steps) = None /\
@@ -99,12 +99,26 @@ Theorem result_wellformed o gid f inj exp g :
   wf_func f -> Forall (fun nd => fst nd <> 0) exp ->
   update_wrapper_opt o gid f inj exp = Ok g ->
   exists s, sig_of (b_func g) = Ok s /\ wf_params (sg_params s) = true /\
-            spec_wraps (func_sig f) inj exp = Ok s.
+            spec_wraps_opt (o_inject_to_varkw o) (func_sig f) inj exp = Ok s.
 Proof.
   intros WF NZ E. pose proof (update_wrapper_opt_refines o gid f inj exp WF NZ) as R. rewrite E in R.
-  destruct (spec_wraps (func_sig f) inj exp) as [s|]; [|exfalso; exact R].
+  destruct (spec_wraps_opt (o_inject_to_varkw o) (func_sig f) inj exp) as [s|]; [|exfalso; exact R].
   destruct R as [SG [_ [_ [_ [_ [_ [_ [_ [_ [[WFg _] _]]]]]]]]]].
   exists s. split; [exact SG|]. split; [|reflexivity].
   pose proof (sig_of_func_sig (b_func g) (wf_len _ WFg)) as X. rewrite SG in X.
   assert (s = func_sig (b_func g)) by congruence. subst s. apply func_sig_wf. exact WFg.
+Qed.
+
+(* inject_to_varkw=False: a name that is no ordinary parameter is refused even when the
+   function has **kwargs *)
+Theorem inject_strict o gid f n :
+  wf_func f -> o_inject_to_varkw o = false ->
+  existsb (removable n) (sg_params (func_sig f)) = false ->
+  exists e, update_wrapper_opt o gid f [n] [] = Raise e.
+Proof.
+  intros WF TV NR. pose proof (update_wrapper_opt_refines o gid f [n] [] WF (Forall_nil _)) as R.
+  unfold spec_wraps_opt in R. cbn [spec_injects_opt] in R. unfold spec_inject_opt in R.
+  rewrite NR, TV in R. cbn [andb] in R.
+  match type of R with match ?u with _ => _ end => destruct u as [g|e] eqn:E end; [exfalso; exact R|].
+  exists e. first [exact E | reflexivity].
 Qed.
